@@ -2,6 +2,7 @@
 import ast
 import struct
 from . import rule
+from ..inline import InlineBlock
 from .. import util as U
 from ..pyir import AnalysisError, unparse
 from .. import oracle
@@ -202,6 +203,9 @@ def r_chunk_kinds(ctx):
             elif cond is not None:
                 last = kind
 
+    from .raftlog import ack_calls
+    ack_nodes = [c for c, *_ in ack_calls(ctx)]
+
     def ev(m):
         out = []
         if m.kind != 'stmt' or m.ast is None:
@@ -212,10 +216,12 @@ def r_chunk_kinds(ctx):
             out.append('append')
         if any(isinstance(c, ast.Call) and unparse(c.func).endswith('loads') and any(P.self_attr(x, h.self_name) == buf for x in ast.walk(c)) for c in ast.walk(m.ast)):
             out.append('decode')
+        if any(x is c for c in ack_nodes for x in ast.walk(m.ast)):
+            out.append('reply')
         return out
-    rets = [m.id for m in cfg.nodes if m.kind == 'stmt' and isinstance(m.ast, ast.Return)]
     lookup_id = info['lookup'][0].id if info.get('lookup') else None
     ctx.require(lookup_id is not None, 'log lookup after the chunk handling not found')
+    rets = U.handler_returns(cfg, cfg.nodes[lookup_id])
     getter = ex.tb.term(U.parse_expr("%s.get('transmission', None)" % msg))
     from ..facts import const_term
     handled = set()
@@ -228,12 +234,14 @@ def r_chunk_kinds(ctx):
                 outcomes.add((tuple(sorted(cnt)), 'continue' if end == lookup_id else 'return'))
         inst = 'receiver effects for a %r chunk' % kind
         ctx.tick(len(outcomes))
+        # an intermediate chunk is answered before the handler returns: these replies are the only traffic towards the
+        # leader while a long entry is in flight, without them its silence timeout cuts the transfer over and over
         if kind == first:
-            want = {((('reset', 1),), 'return')}
+            want = {((('reply', 1), ('reset', 1)), 'return')}
         elif kind == last:
             want = {((('append', 1), ('clear', 1), ('decode', 1)), 'continue')}
         else:
-            want = {((('append', 1),), 'return')}
+            want = {((('append', 1), ('reply', 1)), 'return')}
         if outcomes:
             handled.add(kind)
         if outcomes == want:
@@ -641,10 +649,19 @@ def conn_parts(ctx):
                 a = P.self_attr(x, parse.self_name)
                 if a:
                     rbuf = a
+    # the write buffer: the attribute handed to <socket attribute>.send(..) somewhere in the class and extended in send()
+    handed = set()
+    for m in P.methods_of(C):
+        for c in P.calls_in(m):
+            if isinstance(c.func, ast.Attribute) and c.func.attr == 'send' and P.self_attr(c.func.value, m.self_name) and c.args:
+                for x in ast.walk(c.args[0]):
+                    a = P.self_attr(x, m.self_name)
+                    if a:
+                        handed.add(a)
     for n in ast.walk(send.node):
-        if isinstance(n, ast.AugAssign):
-            a = P.self_attr(n.target, send.self_name)
-            if a:
+        if isinstance(n, (ast.AugAssign, ast.Assign)):
+            a = P.self_attr(n.target if isinstance(n, ast.AugAssign) else n.targets[0], send.self_name)
+            if a and (a in handed or (not handed and isinstance(n, ast.AugAssign) and not isinstance(n.value, ast.Constant))):
                 wbuf = a
     if not rbuf or not wbuf:
         raise AnalysisError('read/write buffer attributes not found')
@@ -686,7 +703,36 @@ def r_header_agree(ctx):
     else:
         ctx.violation('TcpConnection:header-format-mismatch', parse.loc(), 'send packs %r, the parser unpacks %r' % (pf[0], uf[0]), instance=inst)
     H = struct.calcsize(uf[0])
-    consts = [n for n in ast.walk(parse.node) if isinstance(n, ast.Constant) and isinstance(n.value, int) and not isinstance(n.value, bool) and n.value > 0]
+    # literals that take part in the buffer arithmetic: the ones in an expression that mentions the read buffer (or a
+    # local alias of it); counters and statistics next to the parsing are not header sizes
+    sn = parse.self_name
+    aliases = set()
+
+    def mentions_buffer(e):
+        return any((P.self_attr(x, sn) == rbuf) or (isinstance(x, ast.Name) and x.id in aliases) for x in ast.walk(e))
+    # locals computed from the buffer (an alias, its length, the unpacked frame length, a slice bound built from it)
+    changed = True
+    while changed:
+        changed = False
+        for st in ast.walk(parse.node):
+            if isinstance(st, ast.Assign) and len(st.targets) == 1 and isinstance(st.targets[0], ast.Name) and st.targets[0].id not in aliases and mentions_buffer(st.value):
+                aliases.add(st.targets[0].id)
+                changed = True
+            elif isinstance(st, ast.Subscript) and mentions_buffer(st.value):
+                for x in ast.walk(st.slice):
+                    if isinstance(x, ast.Name) and x.id not in aliases:
+                        aliases.add(x.id)
+                        changed = True
+    tops = []
+    for st in ast.walk(parse.node):
+        if isinstance(st, (ast.Assign, ast.AugAssign, ast.AnnAssign, ast.Return, ast.Expr)):
+            tops.append(st)
+        elif isinstance(st, (ast.If, ast.While)):
+            tops.append(st.test)
+    consts = []
+    for t in tops:
+        if t is not None and mentions_buffer(t):
+            consts += [n for n in ast.walk(t) if isinstance(n, ast.Constant) and isinstance(n.value, int) and not isinstance(n.value, bool) and n.value > 0]
     inst = 'literal header sizes in the parser'
     ctx.tick(len(consts))
     badc = [n for n in consts if n.value != H]
@@ -743,7 +789,7 @@ def _transform_seq(P, func, names):
                 visit_stmts(s.body, guard)
                 for hd in s.handlers:
                     visit_stmts(hd.body, guard)
-            elif isinstance(s, (ast.For, ast.While, ast.With)):
+            elif isinstance(s, (ast.For, ast.While, ast.With, InlineBlock)):
                 visit_stmts(s.body, guard)
             else:
                 visit_expr(s, guard)
@@ -765,6 +811,32 @@ def r_codec_inverse(ctx):
         ctx.ok(inst, parse.loc(), 'send %s / receive %s' % (s, r))
     else:
         ctx.violation('TcpConnection:codec-pipelines-differ', parse.loc(), 'send applies %s, receive applies %s, expected %s' % (s, r, want), instance=inst)
+    # the optional session-key envelope: send wraps the message in a pair exactly when the receiver takes a pair apart
+    def wraps(func):
+        out = []
+        for n in ast.walk(func.node):
+            if isinstance(n, ast.Assign) and len(n.targets) == 1 and isinstance(n.targets[0], ast.Name) and isinstance(n.value, ast.Tuple) and len(n.value.elts) == 2 \
+                    and isinstance(n.value.elts[1], ast.Name) and n.value.elts[1].id == n.targets[0].id and P.self_attr(n.value.elts[0], func.self_name):
+                out.append(n)
+        return out
+
+    def unwraps(func):
+        out = []
+        for n in ast.walk(func.node):
+            if isinstance(n, ast.Assign) and len(n.targets) == 1 and isinstance(n.targets[0], ast.Tuple) and len(n.targets[0].elts) == 2 and isinstance(n.value, ast.Name) \
+                    and isinstance(n.targets[0].elts[1], ast.Name) and n.targets[0].elts[1].id == n.value.id:
+                out.append(n)
+        return out
+    w_, u_ = wraps(send), unwraps(parse)
+    if w_ or u_:
+        inst = 'session-key envelope: wrapped by send iff taken apart by the parser'
+        ctx.tick()
+        if len(w_) == len(u_):
+            ctx.ok(inst, send.loc(w_[0]), '`%s` / `%s`' % (unparse(w_[0]), unparse(u_[0])))
+        else:
+            ctx.violation('TcpConnection:envelope-%s' % ('not-wrapped' if not w_ else 'not-unwrapped'), (send.loc(w_[0]) if w_ else parse.loc(u_[0])),
+                          'send() wraps the message in (key, message) %d time(s), the parser takes such a pair apart %d time(s): with the key exchange of the encrypted mode '
+                          'switched on every frame fails to parse (or is delivered still wrapped) and the connection is dropped' % (len(w_), len(u_)), instance=inst)
     ctx.expect_min(1)
 
 
@@ -1022,7 +1094,7 @@ def r_parser_state(ctx):
     for a in P.accesses(parse, include_nested=False):
         if a.kind in ('write', 'aug', 'elem_write', 'del', 'mutcall'):
             own.add(a.attr)
-    allowed = {rbuf, 'recvLastTimestamp'}
+    allowed = {rbuf, 'recvLastTimestamp'} | P.inert_attrs(C)       # counters nothing reads do not influence what is delivered
     inst = 'parser footprint'
     ctx.tick()
     if own <= allowed:
@@ -1079,6 +1151,28 @@ def r_write_fifo(ctx):
                     and defs[0].value.args and P.self_attr(defs[0].value.args[0], m.self_name) == wbuf
                 if okd:
                     ctx.ok(inst, m.loc(st), 'prefix reported sent by socket.send(write buffer) removed')
+                    # ... and removed whenever the socket took something: leaving the function with a positive count and
+                    # the buffer untouched sends those bytes a second time
+                    inst2 = '%s: a positive send count always trims the buffer' % m.qualname
+                    ex = U.explorer(ctx, m)
+                    cfg = ex.cfg
+                    sn_ = U.node_containing(cfg, defs[0])
+                    tn_ = U.node_containing(cfg, st)
+                    starts = [d for d, l in sn_.succ if not (isinstance(l, tuple) and l[0] == 'exc')]
+                    bad = None
+                    nonpos = U.goal(ex, '%s <= 0' % rv)
+                    for s0 in starts:
+                        r_ = ex.run(start=s0, avoid=[tn_.id], follow_exc=False)
+                        for fs in r_.facts_at(cfg.exit.id):
+                            ctx.tick()
+                            if not oracle.entails(fs, nonpos):
+                                bad = (r_, fs)
+                    if bad is not None:
+                        ctx.violation('%s:sent-prefix-kept' % m.qualname, m.loc(defs[0]),
+                                      'after `%s` the function can return with %s > 0 and the write buffer unchanged: the bytes the socket already took are sent again '
+                                      '(a frame is corrupted or delivered twice): %s' % (unparse(defs[0]), rv, bad[0].path_str(cfg.exit.id, bad[1])), instance=inst2)
+                    else:
+                        ctx.ok(inst2, m.loc(defs[0]), 'every exit that skips the trim entails %s <= 0' % rv)
                 else:
                     ctx.violation('%s:write-buffer-prefix' % m.qualname, m.loc(st), 'the removed prefix `%s` is not the byte count returned by socket.send(write buffer)' % rv, instance=inst)
             else:
